@@ -121,6 +121,19 @@ class BitView:
             self.cache[key] = r
             return r
         op = d[0]
+        if op == 'join':
+            a = self.lin_bits(d[1], {8: 'u8', 16: 'u16', 32: 'u32', 64: 'u64', 128: 'u128', 1: 'bool'}.get(w, 'u64'), depth + 1)
+            b = self.lin_bits(d[2], {8: 'u8', 16: 'u16', 32: 'u32', 64: 'u64', 128: 'u128', 1: 'bool'}.get(w, 'u64'), depth + 1)
+            r = [x if x == y else UNK for x, y in zip(a, b)]
+            vals = st.sets.get(s)
+            if vals is not None and 2 <= len(vals) <= 4 and all(e == UNK or e in (0, 1) for e in r):
+                self.joins.add(s)
+            lo, hi = st.lo.get(s), st.hi.get(s)
+            if lo is not None and lo >= 0 and hi is not None:
+                n = hi.bit_length()
+                r = [e if k < n else (0 if e == UNK else e) for k, e in enumerate(r)]
+            self.cache[key] = r
+            return r
         if op == 'cast':
             _, lin, from_ty, to_ty = d
             fw = WIDTH.get(from_ty, 64)
@@ -176,6 +189,15 @@ class BitView:
         w = WIDTH.get(ty, 64)
         if lin.is_const():
             return const_bits(lin.k, w)
+        # every symbol fixed by the current case split: the value is a constant (also for differences / negative offsets)
+        if self.assign and all(s in self.assign for s in lin.co):
+            return const_bits(sum(c * self.assign[s] for s, c in lin.co.items()) + lin.k, w)
+        # merged values with few members inside an arithmetic expression: candidates for the case split
+        for s in lin.co:
+            if s not in self.assign and s.startswith(('phi(', 'join#', 'sel#', 'set#')) and (self.an.bitdef.get(s) is None or self.an.bitdef[s][0] == 'join'):
+                vals = self.st.sets.get(s)
+                if vals is not None and 2 <= len(vals) <= 4:
+                    self.joins.add(s)
         terms = []
         for s, c in sorted(lin.co.items()):
             if c > 0 and c & (c - 1) == 0:
